@@ -23,7 +23,8 @@ from concurrent.futures import ProcessPoolExecutor, as_completed
 from . import REPO, VERIF
 
 REPO_PREFIX = os.path.join(REPO, "python", "lsst", "daf", "relation")
-PREFIXES = ["leaf", "materialization", "m", "leaf_", "x", "p" * 40, "q" * 58, "r" * 60, "s" * 64, "long_prefix_" * 7]
+PREFIXES = ["leaf", "materialization", "m", "leaf_", "x", "p" * 40, "q" * 58, "r" * 60, "s" * 64, "long_prefix_" * 7,
+            "stage1__", "__scratch__", "a_", "", "UPPER", "with space", "dash-", "0"]
 
 
 class Sim:
